@@ -189,10 +189,11 @@ Proof. vm_compute. split; reflexivity. Qed.
       (modelled as [RdExact n]: [read_to_end] loops until end of data and retries [Interrupted], the check turns a short result into
       [UnexpectedEof], so the composite is an exact transfer);
     - src/mp4box/avc1.rs [sps.write(writer)] / [pps.write(writer)]: [NalUnit::write], the library's own method (modelled);
-    the 52 [BoxHeader::new(..).write(writer)] calls are [BoxHeader::write] (modelled as [write_header]) and counted separately.
+    the [BoxHeader::new(..).write(writer)] calls are [BoxHeader::write], the library's own method (modelled as [write_header]); the translator
+    counts them ([Tables.boxheader_write_sites]) for information only — a refactoring that moves them behind a helper changes no stream call.
     A change that introduces another raw transfer breaks this lemma: the model no longer describes the code's I/O. *)
 Lemma io_discipline :
   Tables.io_raw_sites = [ ("src/mp4box/avc1.rs", "write", 2); ("src/track.rs", "by_ref", 1);
                           ("src/track.rs", "read_to_end", 1); ("src/track.rs", "take", 1) ]%string
-  /\ Tables.boxheader_write_sites = 52.
-Proof. split; reflexivity. Qed.
+.
+Proof. reflexivity. Qed.
